@@ -15,6 +15,7 @@ pub mod c15;
 pub mod c16;
 pub mod c17;
 pub mod c18;
+pub mod c19;
 
 pub fn run(a: &Args, rep: &mut Report) -> bool {
     match a.prop.to_lowercase().as_str() {
@@ -35,6 +36,7 @@ pub fn run(a: &Args, rep: &mut Report) -> bool {
         "c16" => c16::run(a, rep),
         "c17" => c17::run(a, rep),
         "c18" => c18::run(a, rep),
+        "c19" => c19::run(a, rep),
         _ => return false,
     }
     true
